@@ -988,7 +988,18 @@ def _isnan1(x):
     return is_nan(x)
 
 
+def _is2d(x):
+    return type(x).__name__ == "Sym2D"
+
+
+def _map2d(x, f, dtype=None):
+    from .symnp2d import Sym2D
+    return Sym2D([r._unop(f, dtype) for r in x.rows], ncols=x.ncols)
+
+
 def isnan(x):
+    if _is2d(x):
+        return _map2d(x, _isnan1, bool_)
     if isinstance(x, SymArr):
         return x._unop(_isnan1, bool_)
     if hasattr(x, "__symx_value__"):
@@ -997,6 +1008,8 @@ def isnan(x):
 
 
 def isinf(x):
+    if _is2d(x):
+        return _map2d(x, is_inf, bool_)
     if isinstance(x, SymArr):
         return x._unop(is_inf, bool_)
     if hasattr(x, "__symx_value__"):
@@ -1020,6 +1033,12 @@ def isfinite(x):
 
 
 def sum(x, axis=None):
+    if _is2d(x):
+        if axis == 1:
+            return SymArr([r.sum() for r in x.rows])
+        if axis == 0:
+            return SymArr([x.col(j).sum() for j in range(x.ncols)])
+        return x.flatten().sum()
     if isinstance(x, (list, tuple)):
         x = SymArr(list(x)) if x else SymArr([], dtype=float64)
     if isinstance(x, SymArr):
